@@ -176,6 +176,24 @@ def oracle_accuracy(ck, path, dyn, xseed=0, iso=None, magbias=1e-2):
     return None
 
 
+def decoys():
+    """instances of every module class with OTHER construction parameters than the paths under test: constructing (and
+    discarding) them must not influence any other instance"""
+    from pytorch_wavelets import DWTForward, DWTInverse, DWT1DForward, DWT1DInverse, DTCWTForward, DTCWTInverse, ScatLayer, ScatLayerj2
+    from pytorch_wavelets.dwt.transform2d import SWTForward
+    out = []
+    for ctor in (lambda: DWTForward(J=1, wave='db5', mode='zero'), lambda: DWTInverse(wave='db5', mode='zero'),
+                 lambda: DWT1DForward(J=1, wave='sym4', mode='periodic'), lambda: DWT1DInverse(wave='sym4', mode='periodic'),
+                 lambda: SWTForward(J=1, wave='db3'), lambda: DTCWTForward(biort='antonini', qshift='qshift_c', J=2),
+                 lambda: DTCWTInverse(biort='antonini', qshift='qshift_c'), lambda: ScatLayer(biort='near_sym_b_bp'),
+                 lambda: ScatLayerj2(biort='near_sym_a', qshift='qshift_a')):
+        try:
+            out.append(ctor())
+        except Exception:
+            pass
+    return out
+
+
 def oracle_convert(ck, path):
     """.float() of a float64-built module == float32-built module, bit for bit; .double() keeps float64 in/out"""
     old = torch.get_default_dtype()
@@ -184,7 +202,11 @@ def oracle_convert(ck, path):
         a, shape, _ = build(path, torch.float32)      # built double, converted with .float()
         torch.set_default_dtype(torch.float32)
         b, _, _ = build(path, torch.float32)          # built float32
-        c, _, _ = build(path, torch.float64)          # built float32, converted with .double()
+        cm = []
+        c, _, _ = build(path, torch.float64, capture=cm)          # built float32 ...
+        decoys()                                      # ... then OTHER instances with other tables / wavelets are constructed ...
+        for m_ in cm:
+            m_.double()                               # ... and only then converted with .double()
     finally:
         torch.set_default_dtype(old)
     x = torch.tensor(ck.nprng.standard_normal(shape), dtype=torch.float32)
@@ -220,6 +242,7 @@ def oracle_convert_history(ck, path):
         desc = 'path=%d built in %s, called, converted to %s, called again' % (path, build_dt, other)
         with torch.no_grad():
             used(x.to(build_dt))
+            decoys()
             for m in mods + fresh:
                 m.double() if other == torch.float64 else m.float()
             a = flat(used(x.to(other))); b = flat(ref(x.to(other)))
